@@ -3,11 +3,22 @@ package ipldbindcode
 import (
 	"bytes"
 	"fmt"
+	"math"
 
 	"github.com/fxamacker/cbor/v2"
 	"github.com/ipfs/go-cid"
 	cidlink "github.com/ipld/go-ipld-prime/linking/cid"
 )
+
+// cborDecMode lifts the library's default limit of 131072 array elements: the schema puts no bound on
+// list lengths (a Subset may link every slot of an epoch) and the schema-driven decoder has none.
+var cborDecMode = func() cbor.DecMode {
+	dm, err := cbor.DecOptions{MaxArrayElements: math.MaxInt32}.DecMode()
+	if err != nil {
+		panic(err)
+	}
+	return dm
+}()
 
 type _array []any
 
@@ -98,7 +109,7 @@ var (
 
 // implement the BinaryUnmarshaler interface for EpochFast
 func (x *Epoch) UnmarshalCBOR(data []byte) error {
-	dec := cbor.NewDecoder(bytes.NewReader(data))
+	dec := cborDecMode.NewDecoder(bytes.NewReader(data))
 	var arr _array
 	if err := dec.Decode(&arr); err != nil {
 		return err
@@ -175,7 +186,7 @@ func (x *Subset) MarshalCBOR() ([]byte, error) {
 }
 
 func (x *Subset) UnmarshalCBOR(data []byte) error {
-	dec := cbor.NewDecoder(bytes.NewReader(data))
+	dec := cborDecMode.NewDecoder(bytes.NewReader(data))
 	var arr _array
 	if err := dec.Decode(&arr); err != nil {
 		return err
@@ -261,7 +272,7 @@ func (x *Block) MarshalCBOR() ([]byte, error) {
 }
 
 func (x *Block) UnmarshalCBOR(data []byte) error {
-	dec := cbor.NewDecoder(bytes.NewReader(data))
+	dec := cborDecMode.NewDecoder(bytes.NewReader(data))
 	var arr _array
 	if err := dec.Decode(&arr); err != nil {
 		return err
@@ -445,7 +456,7 @@ func (x *Rewards) MarshalCBOR() ([]byte, error) {
 }
 
 func (x *Rewards) UnmarshalCBOR(data []byte) error {
-	dec := cbor.NewDecoder(bytes.NewReader(data))
+	dec := cborDecMode.NewDecoder(bytes.NewReader(data))
 	var arr _array
 	if err := dec.Decode(&arr); err != nil {
 		return err
@@ -507,7 +518,7 @@ func (x *Entry) MarshalCBOR() ([]byte, error) {
 }
 
 func (x *Entry) UnmarshalCBOR(data []byte) error {
-	dec := cbor.NewDecoder(bytes.NewReader(data))
+	dec := cborDecMode.NewDecoder(bytes.NewReader(data))
 	var arr _array
 	if err := dec.Decode(&arr); err != nil {
 		return err
@@ -582,7 +593,7 @@ func (x *Transaction) MarshalCBOR() ([]byte, error) {
 }
 
 func (x *Transaction) UnmarshalCBOR(data []byte) error {
-	dec := cbor.NewDecoder(bytes.NewReader(data))
+	dec := cborDecMode.NewDecoder(bytes.NewReader(data))
 	var arr _array
 	if err := dec.Decode(&arr); err != nil {
 		return err
@@ -677,7 +688,7 @@ func (x *DataFrame) MarshalCBOR() ([]byte, error) {
 }
 
 func (x *DataFrame) UnmarshalCBOR(data []byte) error {
-	dec := cbor.NewDecoder(bytes.NewReader(data))
+	dec := cborDecMode.NewDecoder(bytes.NewReader(data))
 	var arr _array
 	if err := dec.Decode(&arr); err != nil {
 		return err
